@@ -136,7 +136,9 @@ type gateWriter struct {
 }
 
 func (w *gateWriter) Internal() bool {
-	if !w.req.spec.Internal {
+	// only the read by Cache.ServeDNS itself (right before the dedup loop);
+	// the hit paths consult Internal() as well
+	if !w.req.spec.Internal && calledFrom(callerServeDNS) {
 		w.req.run.gate(w.req, "join")
 	}
 	return w.req.spec.Internal
@@ -163,13 +165,23 @@ func (c *gateCtx) Value(key any) any {
 	return nil
 }
 func (c *gateCtx) Done() <-chan struct{} {
-	if calledFromServeDNS(false) {
+	if calledFrom(callerServeDNS) {
+		c.req.phase = "parked" // only the request's own goroutine touches phase
 		c.req.run.notify(c.req, "parked")
 	}
 	return c.done
 }
 func (c *gateCtx) Err() error {
-	if calledFromServeDNS(true) {
+	switch {
+	case calledFrom(callerServeDNSViaEffective):
+		// the cancellation-preference test after generation.Done won the
+		// select, or the test before downstream resolution
+		c.req.phase = "errchk"
+		c.req.run.gate(c.req, "errchk")
+	case c.req.phase == "parked" && calledFrom(callerStopCanceled):
+		// ctx.Done won the select: the follower goes straight to
+		// stopCanceledRequest; hold it there, it is the same model step (Wait)
+		c.req.phase = "errchk"
 		c.req.run.gate(c.req, "errchk")
 	}
 	c.mu.Lock()
@@ -190,9 +202,15 @@ func (c *gateCtx) fired() error {
 	return c.err
 }
 
-// calledFromServeDNS reports whether the context method was invoked directly
-// by Cache.ServeDNS (viaEffective: through contextutil.EffectiveError).
-func calledFromServeDNS(viaEffective bool) bool {
+const (
+	callerServeDNS             = iota // Cache.ServeDNS directly
+	callerServeDNSViaEffective        // Cache.ServeDNS -> contextutil.EffectiveError
+	callerStopCanceled                // Cache.stopCanceledRequest -> contextutil.EffectiveError
+)
+
+// calledFrom reports which function of the cache middleware invoked the
+// context method (wrapper contexts that merely delegate are skipped).
+func calledFrom(want int) bool {
 	pcs := make([]uintptr, 24)
 	n := runtime.Callers(3, pcs)
 	frames := runtime.CallersFrames(pcs[:n])
@@ -202,15 +220,16 @@ func calledFromServeDNS(viaEffective bool) bool {
 		name := f.Function
 		switch {
 		case strings.HasPrefix(name, "context."),
-			strings.HasSuffix(name, ".Done"), strings.HasSuffix(name, ".Err"):
+			strings.HasSuffix(name, ".Done"), strings.HasSuffix(name, ".Err"), strings.HasSuffix(name, ".Internal"):
 			// wrapper contexts delegating to the parent
 		case strings.HasSuffix(name, "contextutil.EffectiveError"):
 			sawEffective = true
+		case strings.HasSuffix(name, "cache.(*Cache).ServeDNS"):
+			return (want == callerServeDNS && !sawEffective) || (want == callerServeDNSViaEffective && sawEffective)
+		case strings.HasSuffix(name, "cache.(*Cache).stopCanceledRequest"):
+			return want == callerStopCanceled && sawEffective
 		default:
-			if !strings.HasSuffix(name, "cache.(*Cache).ServeDNS") {
-				return false
-			}
-			return sawEffective == viaEffective
+			return false
 		}
 		if !more {
 			return false
@@ -226,9 +245,11 @@ type ddReq struct {
 	ch     *middleware.Chain
 	msg    *dns.Msg
 	status string // idle running join parked woke lead down ret
+	phase  string // goroutine-local: last harness point passed (parked | errchk)
 	resume chan struct{}
 	cmd    chan ddOutcome
 
+	dkey       uint64                // the dedup key Cache.ServeDNS computed for this request
 	role       string                // none | leader | fall
 	gen        *waitgroup.Generation // generation held
 	prev       *waitgroup.Generation
@@ -236,7 +257,6 @@ type ddReq struct {
 	started    bool
 	firedAtRel bool // the context was already finished when the goroutine was last released
 	downCalls  int
-	gotLocalOf int
 }
 
 type ddRun struct {
@@ -249,6 +269,7 @@ type ddRun struct {
 	reqs     map[int]*ddReq
 	order    []int
 	probe    map[int]bool
+	retryKey map[int]uint64
 	events   chan ddEvent
 	abort    chan struct{}
 	gens     []*waitgroup.Generation // index = model id-1, creation order
@@ -296,7 +317,10 @@ func (r *ddRun) newMsg(q *ddReq) *dns.Msg {
 	return m
 }
 
-// dedupKey is the key Cache.ServeDNS uses for the request right now.
+// dedupKey is the key Cache.ServeDNS computes for a request on model key k
+// right now: the retained failure generation's retry key while there is one,
+// else the cache key.  A request keeps the key it computed (a fill that
+// clears the failure state does not re-key requests already past the lookup).
 func (r *ddRun) dedupKey(k int) uint64 {
 	m := new(dns.Msg)
 	m.SetQuestion(question(k), dns.TypeA)
@@ -306,7 +330,24 @@ func (r *ddRun) dedupKey(k int) uint64 {
 	return cache.CacheKey{Question: m.Question[0], CD: false}.Hash()
 }
 
-func (r *ddRun) current(k int) *waitgroup.Generation { return r.wg.VerifC11Current(r.dedupKey(k)) }
+func (r *ddRun) cacheKey(k int) uint64 {
+	m := new(dns.Msg)
+	m.SetQuestion(question(k), dns.TypeA)
+	return cache.CacheKey{Question: m.Question[0], CD: false}.Hash()
+}
+
+// current is the generation registered for model key k (under the retry key
+// captured when the failure generation was seeded, or under the cache key).
+func (r *ddRun) current(k int) *waitgroup.Generation {
+	if rk, ok := r.retryKey[k]; ok {
+		if g := r.wg.VerifC11Current(rk); g != nil {
+			return g
+		}
+	}
+	return r.wg.VerifC11Current(r.cacheKey(k))
+}
+
+func (r *ddRun) currentOf(q *ddReq) *waitgroup.Generation { return r.wg.VerifC11Current(q.dkey) }
 
 func (r *ddRun) id(g *waitgroup.Generation) int {
 	if g == nil {
@@ -426,6 +467,9 @@ func (r *ddRun) shouldWake(q *ddReq) bool {
 
 func (r *ddRun) apply(ev ddEvent) {
 	q := ev.req
+	if os.Getenv("VERIF_C11_DEBUG") != "" {
+		fmt.Printf("  event: request %d %s (was %s)\n", q.spec.ID, ev.point, q.status)
+	}
 	switch ev.point {
 	case "join":
 		q.status = "join"
@@ -484,6 +528,13 @@ func (r *ddRun) settle(stepped *ddReq, resolve func()) error {
 		case ev := <-r.events:
 			r.apply(ev)
 		case <-deadline:
+			for _, id := range r.order {
+				q := r.reqs[id]
+				if q.status == "parked" && q.gen != nil && r.shouldWake(q) {
+					r.violate("InTime", fmt.Sprintf("request %d is parked in the dedup wait although its context is finished or its generation is done; it did not wake within 15 s (wedged)", id))
+					return nil
+				}
+			}
 			return fmt.Errorf("goroutines did not settle: %s", pending)
 		}
 	}
@@ -575,8 +626,8 @@ func (r *ddRun) check() bool {
 			r.violate("InternalSkipsJoin", fmt.Sprintf("internal sub-query %d joined the dedup wait", id))
 			return false
 		}
-		if q.firedAtRel && q.status != "ret" && q.status != "running" {
-			r.violate("InTime", fmt.Sprintf("request %d was past its deadline/cancellation when it ran, yet it went on to %q instead of finishing", id, q.status))
+		if q.firedAtRel && q.status == "down" {
+			r.violate("InTime", fmt.Sprintf("request %d was past its deadline/cancellation when it ran, yet downstream resolution was started for it", id))
 			return false
 		}
 	}
@@ -642,7 +693,10 @@ func (r *ddRun) willCreateShort() {
 // resolveAfterJoin: the stepped request ran JoinGeneration / Regroup and has
 // stopped; find out what it holds.  Returns the actions it performed.
 func (r *ddRun) resolveJoin(q *ddReq, regroup bool) (leader bool, err error) {
-	cur := r.current(q.spec.Key)
+	if regroup {
+		q.dkey = r.dedupKey(q.spec.Key) // `dedupKey = retryKey` of the loop turn that regroups
+	}
+	cur := r.currentOf(q)
 	switch q.status {
 	case "parked", "woke":
 		var g *waitgroup.Generation
@@ -689,6 +743,7 @@ func (r *ddRun) stepFirstLookup(q *ddReq) (bool, error) {
 	if err := r.settle(q, nil); err != nil {
 		return false, err
 	}
+	q.dkey = r.dedupKey(q.spec.Key)
 	r.emit("FirstLookup", map[string]any{"r": q.spec.ID}, true)
 	if q.spec.Internal && q.status == "lead" {
 		q.role = "fall"
@@ -938,6 +993,7 @@ func (r *ddRun) runSchedule() error {
 
 	// probe keys: an expired RFC 9520 failure generation is retained for the question
 	r.probe = map[int]bool{}
+	r.retryKey = map[int]uint64{}
 	for _, k := range r.in.ProbeKeys {
 		r.probe[k] = true
 		m := new(dns.Msg)
@@ -950,9 +1006,11 @@ func (r *ddRun) runSchedule() error {
 	for _, k := range r.in.ProbeKeys {
 		m := new(dns.Msg)
 		m.SetQuestion(question(k), dns.TypeA)
-		if _, ok := r.store.FailureRetryKey(m, netip.Prefix{}); !ok {
+		rk, ok := r.store.FailureRetryKey(m, netip.Prefix{})
+		if !ok {
 			return fmt.Errorf("seeding the expired failure generation for key %d failed", k)
 		}
+		r.retryKey[k] = rk
 		if _, ok := r.store.LookupFailure(m, netip.Prefix{}); ok {
 			return fmt.Errorf("seeded failure for key %d is still active", k)
 		}
